@@ -28,4 +28,22 @@ func init() {
 		Explanation: "Decides totality obligations of C19 on input-reachable code.",
 		NotCovered: "unchecked assertions in the transaction path that rely on upstream type validation; resource exhaustion",
 	})
+
+	registerRule(&RuleDef{ID: "K1", Min: 15, Doc: "keyed/positional codec pairs agree slot by slot", Run: ruleK12})
+	registerRule(&RuleDef{ID: "K2", Min: 10, Doc: "positional codec pairs (emitted by the K1 pass)", Run: func(p *Program, r *Reporter) {}})
+	registerRule(&RuleDef{ID: "K3", Min: 20, Doc: "error tables are inverse bijections", Run: ruleK3})
+	registerProp(&PropDef{
+		ID:    "C12",
+		Rules: []string{"K1", "K2", "K3"},
+		Explanation: "Decides codec agreement for C12.",
+		NotCovered: "struct-tag driven encoding by encoding/json itself; OvsSet/OvsMap element handling; numeric fidelity",
+	})
+
+	registerRule(&RuleDef{ID: "E6", Min: 100, Doc: "every constant of a group is handled at each sibling site", Run: ruleE6})
+	registerProp(&PropDef{
+		ID:    "C03",
+		Rules: []string{"E6"},
+		Explanation: "Exhaustiveness of operation/mutator/condition tables.",
+		NotCovered: "what each handler computes",
+	})
 }
